@@ -320,16 +320,35 @@ def r06g(ctx, run):
                 # format!(..) hides its arguments from the chain: look for the generator in the same function instead, feeding a format
                 fresh = FA.chain_has_call(name, "format") and any(short(x.callee) == "generate_unique_id" for x in fn.calls())
             memo = None
-            for d, ch, sides in fn.conditions_of(c.bb, limit=12):
-                calls = [nd for nd in walk_chain(ch) if nd.get("kind") == "call"]
-                if ch.get("kind") == "discr" and any(short(nd["callee"]) in ("get", "get_name", "contains_key", "entry") for nd in calls) and not any(
-                        short(nd["callee"]) == "get" and "comptime_results" in FA.show_chain(nd, 6) for nd in calls):
-                    memo = d
-                    break
+
+            def calls_of(ch):
+                return [(short(nd["callee"]), nd.get("bb"), nd.get("ln")) for nd in walk_chain(ch) if nd.get("kind") == "call"]
+
+            def field_of(ch):
+                for nd in walk_chain(ch):
+                    for pr in nd.get("proj", []) or []:
+                        if isinstance(pr, str) and pr.startswith("."):
+                            return pr
+                return None
+            name_calls = set(calls_of(name))
+            for l in fn.calls():
+                if not fn.dominates(l.bb, c.bb) or l.bb == c.bb:
+                    continue
+                # (a) the module's own name table, asked for the very name the object is created under
+                if short(l.callee) == "get_name" and len(l.args) >= 2 and name_calls & set(calls_of(fn.chain_operand(l.args[1], depth=14))):
+                    memo = "module.get_name at line %d" % l.ln
+                # (b) a cache map of the compiler that the created id is inserted into
+                if short(l.callee) in ("get", "contains_key") and l.args:
+                    fld = field_of(fn.chain_operand(l.args[0], depth=8))
+                    if fld and fld != ".comptime_results":
+                        for ins in fn.calls():
+                            if short(ins.callee) == "insert" and ins.args and field_of(fn.chain_operand(ins.args[0], depth=8)) == fld and any(
+                                    FA.chain_has_call(fn.chain_operand(a_, depth=10), "create_global_data") for a_ in ins.args[1:]):
+                                memo = "cache %s looked up at line %d, filled at line %d" % (fld, l.ln, ins.ln)
             if fresh:
                 run.ok(c.site(), "%s: the data object's name contains a fresh unique id" % owner)
             elif memo is not None:
-                run.ok(c.site(), "%s: created only after a lookup missed (bb%d)" % (owner, memo))
+                run.ok(c.site(), "%s: created only after a lookup missed (%s)" % (owner, memo))
             else:
                 run.finding(strip_generics(fn.path), "data-defined-per-compilation:" + owner, c.file, c.ln,
                             "%s defines a data object under a name computed from the expression's location, without a fresh id and without looking the name up first: when "
